@@ -13,25 +13,68 @@ import (
 func (fc *FCtx) execBlock(stmts []ast.Stmt, st *State) *Flow {
 	out := newFlow()
 	cur := st
-	top := len(fc.frames) == 1 && fc.C != nil && len(fc.C.Asserts) > 0 && len(stmts) > 0 && len(fc.FI.Body().List) > 0 && stmts[0] == fc.FI.Body().List[0]
+	top := len(fc.frames) == 1 && fc.C != nil && (len(fc.C.Asserts) > 0 || len(fc.C.NamedAsserts) > 0) && len(stmts) > 0 && len(fc.FI.Body().List) > 0 && stmts[0] == fc.FI.Body().List[0]
+	seenDef := map[string]bool{}
+	checkAsserts := func(cs []*Clause, label string, pos token.Pos) {
+		for k, a := range cs {
+			env := fc.newEnv(cur, fc.entry, pos)
+			t := fc.specBool(a.Expr, env)
+			fc.obligeNamed(cur, fmt.Sprintf("assert#%s.%d", label, k), "assert", t, "assert "+label+": "+a.Src, pos)
+			cur.assume(t)
+		}
+	}
 	for i, s := range stmts {
 		if cur == nil {
 			break // unreachable code
 		}
+		var defs []string
 		if top {
-			for k, a := range fc.C.Asserts[i] {
-				env := fc.newEnv(cur, fc.entry, s.Pos())
-				t := fc.specBool(a.Expr, env)
-				fc.obligeNamed(cur, fmt.Sprintf("assert#%d.%d", i, k), "assert", t, fmt.Sprintf("assert before statement %d: %s", i, a.Src), s.Pos())
-				cur.assume(t)
+			checkAsserts(fc.C.Asserts[i], fmt.Sprint(i), s.Pos())
+			defs = definedNames(s)
+			for _, d := range defs {
+				if !seenDef[d] {
+					checkAsserts(fc.C.NamedAsserts["before:"+d], "before-"+d, s.Pos())
+				}
 			}
 		}
 		f := fc.execStmt(s, cur, "")
 		out.absorb(f)
 		cur = fc.merge(f.normal)
+		if top && cur != nil {
+			for _, d := range defs {
+				if !seenDef[d] {
+					seenDef[d] = true
+					checkAsserts(fc.C.NamedAsserts["after:"+d], "after-"+d, s.End())
+				}
+			}
+		}
 	}
 	if cur != nil {
 		out.normal = []*State{cur}
+	}
+	return out
+}
+
+// definedNames: variables a top-level statement defines or assigns (for anchoring asserts).
+func definedNames(s ast.Stmt) []string {
+	var out []string
+	switch x := s.(type) {
+	case *ast.AssignStmt:
+		for _, l := range x.Lhs {
+			if id, ok := l.(*ast.Ident); ok && id.Name != "_" {
+				out = append(out, id.Name)
+			}
+		}
+	case *ast.DeclStmt:
+		if gd, ok := x.Decl.(*ast.GenDecl); ok {
+			for _, sp := range gd.Specs {
+				if vs, ok := sp.(*ast.ValueSpec); ok {
+					for _, n := range vs.Names {
+						out = append(out, n.Name)
+					}
+				}
+			}
+		}
 	}
 	return out
 }
